@@ -23,7 +23,7 @@ fn source_pixels(img: &Image, bg: Option<RGBA>) -> Vec<Vec<u8>> {
 }
 
 /// a writer that accepts at most `1` bytes per call (pipes and non-blocking descriptors do that)
-struct Short(Vec<u8>, usize);
+pub struct Short(pub Vec<u8>, pub usize);
 impl std::io::Write for Short {
     fn write(&mut self, buf: &[u8]) -> std::io::Result<usize> {
         let n = buf.len().min(self.1);
